@@ -1176,6 +1176,44 @@ def c03_drop_aborts(env, ob):
     return trace_obligation(env, ob, ctx, res, bad, "dropping a TransactionHandle does not abort the transaction")
 
 
+@obligation(id="C13.usable_after_checkpoint", also="C12,C09", funcs="PageCache::clear",
+            bounds="every path of PageCache::clear with the drain loop unrolled once", native="c13_usable_after_vacuum")
+def c13_cache_clear_keeps_capacity(env, ob):
+    """Every checkpoint (Pager::flush: VACUUM, Database::flush) empties the page cache through PageCache::clear; the
+    cache must keep its configured capacity, otherwise the handle is unusable afterwards (every insert: out of memory)."""
+    names = env.struct_fields("io/cache.rs", "PageCache")
+    ci = str(names.index("capacity"))
+    ctx, f, args, res = explore(env, "io/cache.rs", "clear", sig=r"PageCache", loop_bound=1)
+    cache = args[0].cell.val
+    init = ctx.smtname(f"{cache.name}.{ci}")
+    cands, done = [], 0
+    for path, rv in res:
+        if path.cut or path.panics:
+            continue
+        done += 1
+        fr = getattr(path, "final_frame", None)
+        cur = args[0].cell.val.fields.get(ci) if False else None
+        # the final value of self.capacity on this path lives in the path's own copy of the argument object
+        selfref = fr.cells[f.params[0][0]].val if fr else None
+        obj = selfref.cell.val if isinstance(selfref, Ref) else None
+        if not isinstance(obj, Agg):
+            raise Unsupported("cannot read back PageCache after clear()")
+        cell = obj.fields.get(ci)
+        final = cell.val.term if cell is not None and isinstance(cell.val, Leaf) else init
+        if init not in ctx.decls:
+            ctx.decls[init] = "(_ BitVec 64)"
+        cands.append(conj(path.pc + [f"(not (= {final} {init}))"]))
+    if not done:
+        return result(ob, "inconclusive", reason="vacuity: no complete path through clear()", paths=len(res))
+    chk = env.check(ctx, [disj(cands)])
+    kw = dict(paths=len(res), queries=1)
+    if chk[0]["verdict"] == "unsat":
+        return result(ob, "discharged", **kw)
+    if chk[0]["verdict"] == "sat":
+        return result(ob, "violated", failed=["cache_capacity_changed_by_clear"], cex={"what": "PageCache::clear leaves a capacity different from the configured one"}, **kw)
+    return result(ob, "inconclusive", reason=chk[0]["verdict"], **kw)
+
+
 # ---------------------------------------------------------------------------------------------------------------------
 # C13: VACUUM's removal decision
 # ---------------------------------------------------------------------------------------------------------------------
